@@ -24,6 +24,7 @@ Section C05.
   (* solve(start, end) = the left fold of solve_t over every position from `start` to `end` inclusive, in span order
      (defaults: position lags through position len-1-leads), stopping at the first exception; the three returned lists
      have one slot per position.  `locate_ok`: every label of the span resolves to its own position. *)
+  (* [guard `locate_ok` on the whole span; superseded by C05_solve_eq_fold_given, sharp since fix 7cd6323] *)
   Theorem C05_solve_eq_fold d o span start end_ s a b :
     min_iter o <= max_iter o -> locate_ok L locate span ->
     resolves_start L d span start a -> resolves_end L d span end_ b ->
@@ -62,6 +63,7 @@ Section C05.
   Proof. exact (periods_reversed_empty L span a b). Qed.
 
   (* a returning solve() reports exactly those (position, label) pairs, one flag each, in order *)
+  (* [superseded by C05_solve_returns_positions_given] *)
   Theorem C05_solve_returns_positions d o span start end_ s a b s' res :
     min_iter o <= max_iter o -> locate_ok L locate span ->
     resolves_start L d span start a -> resolves_end L d span end_ b ->
@@ -101,6 +103,7 @@ Section C05.
      a..a+j-1 were completed in order; the final state is what solve_t left when it raised there (so position a+j carries the
      status its policy prescribes — C06); every other position is as the completed prefix left it (earlier periods keep their
      completed values and status); positions after a+j (and before `start`) are identical to the initial state *)
+  (* [whole-span guard `locate_ok`; superseded by C05_failure_containment_given, which asks only that GIVEN labels resolve] *)
   Theorem C05_failure_containment d o span start end_ s a b s' e :
     hook_frame num (length span) ev -> hook_frame num (length span) before -> hook_frame num (length span) after ->
     length (status s) = length span ->
@@ -130,6 +133,7 @@ Section C05.
   Proof. exact (run_periods_raise_status num sub absf ltb isfin zero ev before after L d o ps s acc s' e). Qed.
 
   (* whatever the outcome, periods outside [start, end] are untouched *)
+  (* [superseded by C05_untouched_outside_range_given] *)
   Theorem C05_untouched_outside_range d o span start end_ s a b s' r :
     hook_frame num (length span) ev -> hook_frame num (length span) before -> hook_frame num (length span) after ->
     length (status s) = length span ->
@@ -202,6 +206,7 @@ Section C05span.
   Notation solve_period_M k span := (solve_period_M num sub absf ltb isfin zero ev before after Z (locate_span k span)).
 
   (* solve_period(label) is identical to solve_t(position of label) for EVERY supported span type *)
+  (* [NoDup guard; superseded by C05_solve_period_unique_label: only THAT label must be carried by one period] *)
   Theorem C05_solve_period_every_span k span d o lab i s :
     NoDup span -> nth_error span i = Some lab ->
     solve_period_M k span d o lab s = solve_t_M d o (Z.of_nat i) s.
@@ -289,6 +294,7 @@ Section C05span.
 
   (* an explicit start in front of the first period with enough lags: solve_t's feasibility guard rejects that first period
      with IndexError (fix eb62990) and nothing at all has changed *)
+  (* [the NoDup hypothesis is stronger than needed: only the given start / end labels must be unambiguous, cf. C05_solve_every_span] *)
   Theorem C05_solve_start_before_lags_rejected k span d o start end_ s a b :
     min_iter o <= max_iter o -> NoDup span -> length (status s) = length span ->
     resolves_start Z d span start a -> resolves_end Z d span end_ b ->
@@ -408,6 +414,20 @@ Section C05next.
   Proof. exact (period_iter_next_empty L locate d span start end_ a b). Qed.
 End C05next.
 
+(* KEPT FINDING (reproduced on /repo; known_findings.d/C05.json): pandas IntervalIndex spans.  IntervalIndex.get_loc returns numpy.int64,
+   which fails `isinstance(position, int)`: solve_period(label) and solve(start=label) raise KeyError for a label that names exactly
+   one period — "solve_period(label) is identical to solve_t(position of label) for every supported span type" is REFUTED for this
+   pandas Index subclass (kind 5 of f_locate mirrors it: SolveAllSpan.locate_interval); solve() with default start / end works.
+   Every other pandas index type probed (Index, RangeIndex, DatetimeIndex, CategoricalIndex, MultiIndex, PeriodIndex) answers with an int. *)
+Theorem C05_interval_index_label_rejected_refuted :
+  exists span lab i,
+    NoDup span /\ nth_error span i = Some lab /\
+    f_solve_period exA_scripts exA_desc (exA_opts ERaise) 5 span [] lab exA_state = (exA_state, Raise KeyError) /\
+    f_solve exA_scripts exA_desc (exA_opts ERaise) 5 span [] (Some lab) None exA_state = (exA_state, Raise KeyError) /\
+    snd (f_solve exA_scripts exA_desc (exA_opts ERaise) 5 span [] None None exA_state)
+    = Ret (mkRes 4%nat [(0, 0, true); (1, 1, true); (2, 2, true); (3, 3, true)]).
+Proof. exact interval_index_label_rejected_refuted. Qed.
+
 (* the guards are decidable *)
 Theorem C05_nodup_b_spec l : nodup_b l = true <-> NoDup l.
 Proof. exact (nodup_b_spec l). Qed.
@@ -440,12 +460,14 @@ Section C05offset.
     | (s1, Raise e) => (s1, Raise e)
     end.
   Proof. exact (run_periods_offset_stops num sub absf ltb isfin zero ev before after L d o span a b j s). Qed.
+  (* [superseded by C05_solve_offset_before_span_rejected_given] *)
   Theorem C05_solve_offset_before_span_rejected d o span start end_ s a b :
     min_iter o <= max_iter o -> locate_ok L locate span -> length (status s) = length span ->
     resolves_start L d span start a -> resolves_end L d span end_ b -> (a <= b)%nat ->
     Z.of_nat a + offset o < 0 ->
     solve_M d o span start end_ s = (s, Raise IndexError).
   Proof. exact (solve_offset_before_span_rejected num sub absf ltb isfin zero ev before after L locate d o span start end_ s a b). Qed.
+  (* [superseded by C05_solve_offset_beyond_span_stops_given] *)
   Theorem C05_solve_offset_beyond_span_stops d o span start end_ s a b j :
     min_iter o <= max_iter o -> locate_ok L locate span -> length (status s) = length span ->
     resolves_start L d span start a -> resolves_end L d span end_ b -> (a + j <= b)%nat ->
@@ -487,6 +509,7 @@ Section C05period.
   Theorem C05_solve_period_year_keyerror span d o y s :
     0 < y -> solve_period_M span d o (year_key y) s = (s, Raise KeyError).
   Proof. exact (solve_period_year_keyerror num sub absf ltb isfin zero ev before after span d o y s). Qed.
+  (* [NoDup: a PeriodIndex from period_range has no repeats; for defaults no condition is needed, C05_solve_eq_fold_given] *)
   Theorem C05_solve_qindex span d o start end_ s a b :
     min_iter o <= max_iter o -> NoDup span -> (forall z, In z span -> 0 <= z) ->
     resolves_start Z d span start a -> resolves_end Z d span end_ b ->
@@ -554,6 +577,7 @@ Print Assumptions C05_failure_containment_given.
 Print Assumptions C05_untouched_outside_range_given.
 Print Assumptions C05_solve_offset_before_span_rejected_given.
 Print Assumptions C05_solve_offset_beyond_span_stops_given.
+Print Assumptions C05_interval_index_label_rejected_refuted.
 Print Assumptions C05_period_iter_next_first.
 Print Assumptions C05_period_iter_next_empty.
 Print Assumptions exS_period_iter_protocol.
